@@ -9,6 +9,8 @@ import Driver.ContextManager
 import Driver.ExitStack
 import Driver.GroupBy
 import Driver.GroupByFault
+import Driver.Cleanup
+import Driver.Heap
 import Driver.Tools
 open Lean
 
@@ -18,6 +20,8 @@ def dispatch (j : Json) : Except String Json := do
   | "exitstack" => Drv.ExitStack.run j
   | "groupby" => Drv.GroupBy.run j
   | "groupbyfault" => Drv.GroupByFault.run j
+  | "cleanup" => Drv.Cleanup.run j
+  | "heap" => Drv.Heap.run j
   | "tool" => Drv.Tools.run j
   | "contextmanager" => Drv.ContextManager.run j
   | "adapters" => Drv.Adapters.run j
